@@ -58,6 +58,22 @@ def oracle_case(ctx, case, jcase, g=None):
                              dict(jcase, call=name, reused=True, docs=[codec.enc_val(x) for x in docs[:k + 1]]),
                              classifier='raise:' + classify(e), detail=repr(e)[:300])
                     return False
+        # ... and with another flag and another schema afterwards: nothing of the earlier calls may make these raise
+        if ok:
+            other = {'zq1': {'type': 'integer'}}
+            tail = [('validate(update=True)', lambda: v.validate(copy.deepcopy(case['doc']), update=True)),
+                    ('validate with another schema', lambda: v.validate({}, copy.deepcopy(other))),
+                    ('validated with another schema', lambda: v.validated({'zq1': 'x'}, copy.deepcopy(other))),
+                    ('normalized with another schema', lambda: v.normalized({'zq2': 1}, copy.deepcopy(other)))]
+            for name, call in tail:
+                try:
+                    call()
+                    _ = v.errors
+                except Exception as e:
+                    ctx.fail('C03 oracle: %s raised %s on a validator that processed other documents (and another schema) before'
+                             % (name, classify(e)), dict(jcase, call=name, reused=True),
+                             classifier='raise:' + classify(e), detail=repr(e)[:300])
+                    return False
     return ok
 
 
@@ -95,7 +111,13 @@ def run(ctx, n):
             if cases.accepted(case) is not True:
                 ctx.dist('skipped', 'schema not accepted')
                 continue
-            jcase = real.enc_case(case)
+            if i % 3 == 1:
+                # fields whose rules are registry references: the definitions in registries bound to the validator
+                refd = cases.with_refs(case, random.Random(ctx.seed * 71 + i))
+                if refd is not None and cases.accepted(refd) is True:
+                    case = refd
+                    ctx.dist('registries', 'bound to the validator')
+            jcase = real.enc_case({k: v for k, v in case.items() if k != 'inline_schema'})
             oracle_case(ctx, case, jcase, g)
             if i % 25 == 0:
                 oracle_declared(ctx, case, jcase, random.Random(i))
@@ -121,3 +143,8 @@ def search(ctx, n):
             continue
         if not oracle_case(ctx, case, real.enc_case(case), g):
             return
+        import random
+        refd = cases.with_refs(case, random.Random(ctx.seed * 71 + i))
+        if refd is not None and cases.accepted(refd) is True:
+            if not oracle_case(ctx, refd, real.enc_case({k: v for k, v in refd.items() if k != 'inline_schema'}), g):
+                return
